@@ -364,6 +364,27 @@ func genRequest(w *W, s *hSchema, o hOpts, bodyKind int, g *hvgen) *hRequest {
 			}
 		}
 	}
+	// ReadHttpValueFallback with a form body: an annotated field none of whose listed sources has a value
+	// falls back to the http body, i.e. to the form member named by the field's own key.
+	// EXCLUDED: required fields, and default fields with WriteDefaultField on - whether the fallback or the
+	// missing-field error / zero filling wins when the body is not JSON is not documented; optional fields
+	// are not tracked in empty-body worlds.
+	if bodyKind == hbForm && o.RHVF && o.Mapping && !o.WD {
+		annoKeys := map[string]bool{}
+		for _, f := range s.Fields {
+			for _, a := range s.Annos[f] {
+				annoKeys[strings.ToLower(a.Key)] = true
+			}
+		}
+		for _, f := range s.Root.Fields {
+			if len(s.Annos[f]) == 0 || f.Req != reqDefault || annoKeys[strings.ToLower(f.Key())] || (f.T.Kind == tSTRUCT && s.NBS[f.T.St]) {
+				continue
+			}
+			if t.Chance(1, 2, "h.formfallback.pop") {
+				add(&r.Form, g.source(f.T, f.Key()))
+			}
+		}
+	}
 	rootT := s.Sch.Root
 	switch bodyKind {
 	case hbJSON:
@@ -829,6 +850,7 @@ func runC17(w *W) {
 		w.CountN("expected_from_"+hKindShort[k], uint64(ev.used[k]))
 	}
 	w.CountN("expected_from_body_fallback", uint64(ev.usedFallbackBody))
+	w.CountN("expected_from_form_body_fallback", uint64(ev.usedFormFallback))
 	w.CountN("expected_from_traceback", uint64(ev.usedTraceback))
 	w.CountN("expected_zero_or_default_filled", uint64(ev.usedZero))
 	w.CountN("expected_left_absent", uint64(ev.usedNoValue))
